@@ -43,6 +43,12 @@ class _Return(Exception):
     self.value = value
 
 
+class _MapComp(Exception):
+  def __init__(self, it, gen):
+    self.it = it
+    self.gen = gen
+
+
 class _Break(Exception):
   pass
 
@@ -145,6 +151,8 @@ class Path:
     self.notes = {}
     self.ghost = {}
     self.no_fork = 0
+    self.scope_depth = 0
+    self.deferred = []
     self.symbols = {}        # name -> z3 const, for models
 
   # -- decisions ------------------------------------------------------------
@@ -161,6 +169,20 @@ class Path:
       raise Unsupported(f'path depth > {self.explorer.max_depth}')
     return c
 
+  def push(self):
+    self.solver.push()
+    self.scope_depth += 1
+
+  def pop(self):
+    """Pops a temporary scope; facts assumed inside it (axioms of helper
+    operations, callee postconditions) are path facts and are re-asserted."""
+    self.solver.pop()
+    self.scope_depth -= 1
+    for z in self.deferred:
+      self.solver.add(z)
+    if self.scope_depth == 0:
+      self.deferred = []
+
   def assume(self, z, check=True):
     if isinstance(z, bool):
       if not z:
@@ -173,6 +195,8 @@ class Path:
       raise Infeasible()
     self.pc.append(z)
     self.solver.add(z)
+    if self.scope_depth > 0:
+      self.deferred.append(z)
     if check:
       r = self.solver.check()
       if r == z3.unsat:
@@ -215,11 +239,11 @@ class Path:
 
     class _S:
       def __enter__(self_):
-        path.solver.push()
+        path.push()
         path.solver.add(z)
 
       def __exit__(self_, *a):
-        path.solver.pop()
+        path.pop()
         return False
     return _S()
 
@@ -1175,13 +1199,13 @@ class Interp:
             continue
           zs.append(z)
           # later operands are evaluated under the short-circuit assumption
-          self.path.solver.push()
+          self.path.push()
           self.path.solver.add(z if is_and else z3.Not(z))
           pushed += 1
         return self._bool_result(zs, is_and)
       finally:
         for _ in range(pushed):
-          self.path.solver.pop()
+          self.path.pop()
     v = None
     for i, x in enumerate(e.values):
       v = self.eval(x, frame)
@@ -1605,6 +1629,10 @@ class Interp:
         v = SAny(f'{obj.tag}.{name}', label=obj.label)
         obj.memo[('attr', name)] = v
       return v
+    if isinstance(obj, SSlice):
+      if name in ('start', 'stop', 'step'):
+        return getattr(obj, name)
+      return BuiltinMethod(obj, name)
     if isinstance(obj, (SSeq, SDict, SStr, SInt, SReal, SBool, SBits)):
       return BuiltinMethod(obj, name)
     if isinstance(obj, Closure):
@@ -1756,7 +1784,35 @@ class Interp:
 
   # -- comprehensions ---------------------------------------------------------------
   def ex_ListComp(self, e, frame):
-    return self._comp(e, frame, lambda f: self.eval(e.elt, f))
+    try:
+      return self._comp(e, frame, lambda f: self.eval(e.elt, f))
+    except _MapComp as mc:
+      return self._map_comp(e, mc.it, mc.gen, frame)
+
+  def _map_comp(self, e, it, g, frame):
+    """[f(x) for x in xs] over a symbolic-length iterable: a fresh sequence
+    `out` with len(out) == len(xs) and out[j] == f(xs[j]) for all j, where the
+    element expression is evaluated once on a bound index without forking."""
+    from . import axioms
+    seq = it if isinstance(it, SymIter) else SymIter.of(it)
+    n = seq.length(self)
+    j = z3.Int(fresh_name('m'))
+    sub = Frame({}, frame.globals, frame.info, frame.spec_mode, parent=frame,
+                cls=frame.cls, name=frame.name)
+    self.path.no_fork += 1
+    try:
+      with self.path.scoped(z3.And(j >= 0, j < n)):
+        self.assign(g.target, seq.item(self, j), sub)
+        v = self.eval(e.elt, sub)
+        zv = self.to_z3(v)
+    finally:
+      self.path.no_fork -= 1
+    if zv is None:
+      raise Unsupported('map comprehension element is not a scalar')
+    arr = z3.Array(fresh_name('map'), z3.IntSort(), zv.sort())
+    self.path.assume(z3.ForAll([j], z3.Implies(z3.And(j >= 0, j < n),
+                                               z3.Select(arr, j) == zv)), check=False)
+    return SSeq(arr, z3.simplify(n), lift, self.to_z3, 'list', zv.sort())
 
   def ex_GeneratorExp(self, e, frame):
     return self._comp(e, frame, lambda f: self.eval(e.elt, f))
@@ -1790,6 +1846,8 @@ class Interp:
       it = self.resolve(self.eval(g.iter, sub))
       items = self.iterate(it, sub)
       if items is None:
+        if len(e.generators) == 1 and not g.ifs and isinstance(e, ast.ListComp):
+          raise _MapComp(it, g)
         raise Unsupported(f'comprehension over symbolic-length sequence ({frame.name})')
       for x in items:
         self.assign(g.target, x, sub)
